@@ -9,21 +9,47 @@ use std::panic::{catch_unwind, AssertUnwindSafe};
 use std::str::FromStr;
 
 pub fn render(t: &Value) -> String {
+    // an application tag does not change what a typed field reads (`!x $a` is the key `$a`, `!!int 5` is the text
+    // `5` for a name and the number 5 for a severity); only an absent value stops being absent (`!x ~` is `~`)
+    let tag = t.get("tag").and_then(|x| x.as_str()).map(|x| format!("{x} ")).unwrap_or_default();
     if let Some(s) = t.get("s") {
         let text = s[0].as_str().unwrap_or("");
-        // an application tag on a scalar read as text does not change the text (`!x $a` is the key `$a`)
-        let tag = t.get("tag").and_then(|x| x.as_str()).map(|x| format!("{x} ")).unwrap_or_default();
         if s[1].as_bool().unwrap_or(false) {
             format!("{tag}{text}")
         } else {
             format!("{tag}{}", yq(text))
         }
     } else if let Some(a) = t.get("seq") {
-        format!("[{}]", a.as_array().unwrap().iter().map(render).collect::<Vec<_>>().join(", "))
+        format!("{tag}[{}]", a.as_array().unwrap().iter().map(render).collect::<Vec<_>>().join(", "))
     } else if let Some(m) = t.get("map") {
-        format!("{{{}}}", m.as_array().unwrap().iter().map(|kv| format!("{}: {}", render(&kv[0]), render(&kv[1]))).collect::<Vec<_>>().join(", "))
+        format!("{tag}{{{}}}", m.as_array().unwrap().iter().map(|kv| format!("{}: {}", render(&kv[0]), render(&kv[1]))).collect::<Vec<_>>().join(", "))
     } else {
         "~".into()
+    }
+}
+
+/// puts application / core-schema tags on some nodes of a tree
+fn sprinkle_tags(t: &mut Value, rng: &mut Rng, prob: u64) {
+    // (an absent value - a plain `~`, `null` or empty scalar - is left alone: what a tag turns it into depends on the
+    // target type in serde_yaml-specific ways the tree model does not carry; the dedicated family below covers the
+    // text-typed keys)
+    let null_like = t.get("s").map(|s| s[1].as_bool().unwrap_or(false) && ["", "~", "null", "Null", "NULL"].contains(&s[0].as_str().unwrap_or("x"))).unwrap_or(false);
+    if rng.chance(1, prob) && t.get("tag").is_none() && !null_like {
+        let tag = *rng.pick(&["!x", "!!str", "!filter", "!", "!detection", "!!int", "!rule", "!!bool", "!!float"]);
+        t["tag"] = json!(tag);
+    }
+    if let Some(a) = t.get_mut("seq").and_then(|a| a.as_array_mut()) {
+        for x in a.iter_mut() {
+            sprinkle_tags(x, rng, prob);
+        }
+    } else if let Some(m) = t.get_mut("map").and_then(|a| a.as_array_mut()) {
+        for kv in m.iter_mut() {
+            if let Some(kv) = kv.as_array_mut() {
+                for x in kv.iter_mut() {
+                    sprinkle_tags(x, rng, prob);
+                }
+            }
+        }
     }
 }
 
@@ -263,6 +289,20 @@ pub fn gen(tier: &str, seed: u64, out: &mut dyn FnMut(Value)) {
     for _ in 0..n {
         let e = valid_doc(&mut rng);
         out(case(to_tree(&e), "valid document"));
+        if rng.chance(1, 6) {
+            // the same document with tags on some of its nodes reads the same
+            let mut t = to_tree(&e);
+            sprinkle_tags(&mut t, &mut rng, 4);
+            out(case(t, "tagged nodes"));
+            // a tag alone where a value is expected is a tagged empty text, not a variant name and not an absent value
+            let mut c = e.clone();
+            let key = *rng.pick(&["type", "type", "severity", "condition"]);
+            c.retain(|(k, _)| k != key);
+            let mut v = json!({"s": [*rng.pick(&["", "", "~", "null"]), true]});
+            v["tag"] = json!(*rng.pick(&["!filter", "!detection", "!dependency", "!x", "!!str"]));
+            c.push((key.to_string(), v));
+            out(case(to_tree(&c), "a tag with no value"));
+        }
         // single-fault corruptions
         let mut c = e.clone();
         let levels = ["", "meta", "params", "match-on"];
@@ -358,7 +398,7 @@ pub fn gen(tier: &str, seed: u64, out: &mut dyn FnMut(Value)) {
             }
             6 => {
                 c.retain(|(k, _)| k != "meta");
-                c.push(("meta".into(), map(vec![(p("attack"), seq(vec![q(*rng.pick(&["T1234", "1234", "T", "T12.a", "t1.2", "T1 ", "T1.2.3", "\u{e9}1", "TA0001", "T\u{ff11}\u{ff12}", "T\u{661}\u{662}", "T1.\u{966}", "\u{ff34}1", "\u{df}1088", "\u{fb01}1234", "t\u{131}0043", "\u{17f}1088", "\u{212a}1", "Ta0043", "tA1.001", "T1\n", "\nT1", "T1.", "T.1", " T1", "T 1", "T1x"]))]))])));
+                c.push(("meta".into(), map(vec![(p("attack"), seq(vec![q(*rng.pick(&["T1234", "1234", "T", "T12.a", "t1.2", "T1 ", "T1.2.3", "\u{e9}1", "TA0001", "T\u{ff11}\u{ff12}", "T\u{661}\u{662}", "T1.\u{966}", "\u{ff34}1", "\u{df}1088", "\u{fb01}1234", "t\u{131}0043", "\u{17f}1088", "\u{212a}1", "Ta0043", "tA1.001", "T1\n", "\nT1", "T1.", "T.1", " T1", "T 1", "T1x", "T+1234", "t+1", "T1234.+001", "T-1", "T1.-2", "T+1.+2", "T1e3", "T0x10", "T1_0", "T١", "T1.2e1", "T\u{2212}1"]))]))])));
                 out(case(to_tree(&c), "ATT&CK id"));
             }
             7 => {
